@@ -474,10 +474,12 @@ fn gen_matrix(rng: &mut Rng) -> Mat {
             row[4] = f32::NEG_INFINITY;
         }
     }
-    // a finite wildcard column (only together with the cases meant to probe it)
-    if bgk == "wild" && rng.chance(1, 3) {
+    // a finite wildcard column: with wildcard mass (the words through it then have a
+    // finite score), or -- rarely -- without (the cell then only enters error_max)
+    if (bgk == "wild" && rng.chance(1, 3)) || (bgk != "wild" && rng.chance(1, 16)) {
+        let pos = rng.chance(1, 2);
         for row in mat.iter_mut() {
-            row[4] = rng.range(-12, 2) as f32 / 2.0;
+            row[4] = if pos { rng.range(-12, 6) as f32 / 2.0 } else { rng.range(-12, 0) as f32 / 2.0 };
         }
     }
     // sometimes equal rows (ties in the row permutation)
